@@ -386,32 +386,32 @@ class Ctx:
                 comp.in_hypothesis += 1
             if len(comp.samples) < max_samples and (nontrivial is None or nontrivial(c, o)):
                 comp.samples.append({"case": c, "op": op, "impl": o, "model": mo})
-            bad = False
             if oracle is not None:
                 msg = oracle(c, o)
                 if msg:
                     comp.oracle_failures += 1
-                    bad = True
                     self.violation(name, "oracle", {"case": c, "op": op}, {"impl": o, "model": mo}, msg, True)
             if mo is not None and mo != o:
                 comp.disagreements += 1
                 if mo == "bad-op":
                     raise RuntimeError(f"driver answered bad-op for {op!r} (component {name})")
-                if not bad:
-                    self.violation(name, "correspondence", {"case": c, "op": op}, {"impl": o, "model": mo},
-                                   f"correspondence {name}: implementation and Lean model agree on this input", False)
+                # reported even when the oracle failed on the same case: a listed finding on the oracle side must
+                # not hide that model and implementation part ways there
+                self.violation(name, "correspondence", {"case": c, "op": op}, {"impl": o, "model": mo},
+                               f"correspondence {name}: implementation and Lean model agree on this input", False)
         return outs, model_outs
 
     def check_oracle(self, name, cases, impl, oracle, **kw):
         return self.correspond(name, cases, impl, None, oracle, **kw)
 
     def violation(self, component, kind, case, observed, expected, found):
-        # de-duplicate massive floods: keep at most 5 per (component, kind)
-        n = sum(1 for v in self.violations if v.component == component and v.kind == kind)
-        if n >= 5:
-            return
+        # de-duplicate massive floods: keep at most 5 per (component, kind) — counted separately for hits of listed
+        # findings and for everything else, so that a flood of known hits can never crowd out an unlisted violation
         v = Violation(component, kind, case, observed, expected, found)
         v.known = self._match_known(v)
+        n = sum(1 for w in self.violations if w.component == component and w.kind == kind and bool(w.known) == bool(v.known))
+        if n >= 5:
+            return
         self.violations.append(v)
 
     def _match_known(self, v: Violation):
